@@ -206,6 +206,13 @@ class Worker:
     def handle_error(self, req, client, addr, exc):
         request_start = datetime.now()
         addr = addr or ('', -1)  # unix socket case
+        if getattr(req, "response_started", False) is True:
+            # The head of the response to this request is on the wire and
+            # handle_request() has written its access record: an error page
+            # would end up inside the body and a second record would
+            # contradict the first. All that is left is to drop the connection.
+            self.log.exception("Error handling request %s", req.uri)
+            return
         if isinstance(exc, (
             InvalidRequestLine, InvalidRequestMethod,
             InvalidHTTPVersion, InvalidHeader, InvalidHeaderName,
